@@ -29,7 +29,7 @@ def collide(g, form):
     if not named:
         return "none"
     kind = g.pick(["helper_count", "helper_other", "meta", "dup_sibling", "dup_case", "dup_elsewhere", "section_twice",
-                   "form_name", "instanceID", "dup_cross_section", "dup_line_feed"])
+                   "form_name", "instanceID", "dup_cross_section", "dup_line_feed", "path_attribute"])
     n, anc = g.pick(named)
     reps = [x for x, _ in named if x["k"] == "r"]
     qs = [x for x, _ in named if x["k"] == "q"]
@@ -56,6 +56,12 @@ def collide(g, form):
         if other is not n:
             nm = other["c"]["name"]
             n["c"]["name"] = nm.upper() if kind == "dup_case" and nm.upper() != nm else nm
+    elif kind == "path_attribute":
+        # a column that would set the generated path itself: refused, or at least never two binds / controls on one node
+        other, _ = g.pick(named)
+        if other is not n and n["k"] == "q":
+            root = form.get("settings", {}).get("name", form.get("args", {}).get("form_name", "data"))
+            n["c"][g.pick(["bind::nodeset", "body::ref", "body::nodeset"])] = g.pick([f"/{root}/{other['c']['name']}", f"/{root}/gone"])
     elif kind == "dup_line_feed":
         # cells kept as typed (documented clean_text_values=no): a name followed by a line feed is written as the same XML name
         other, _ = g.pick(named)
@@ -229,10 +235,9 @@ def check_templates(out, v, root, clause):
         hits = _resolve_full(prim, ns)
         tmpl = [c for c in hits if c.get(q(JR, "template")) is not None]
         live = [c for c in hits if not _in_template(c)]
-        # (A repeat inside a group inside a repeat gets a template *and* a plain copy inside the outer template --
-        # observed on the unchanged tree, harmless for path resolution and not excluded by the statement -- so the
-        # rule is: exactly one live copy, exactly one copy marked jr:template, all copies of the same shape.)
-        if len(tmpl) != 1 or len(live) != 1:
+        # exactly one live copy and exactly one copy marked jr:template (inside the outer repeat's template for a nested
+        # repeat, whether or not a group lies between them), and no third copy
+        if len(tmpl) != 1 or len(live) != 1 or len(hits) != 2:
             out.fail(clause, "count", f"repeat {ns}: {len(hits)} copies, {len(tmpl)} marked jr:template, {len(live)} live")
         elif any(_shape(h) != _shape(live[0]) for h in hits):
             out.fail(clause, "shape", f"repeat {ns}: template and live copy differ in descendants")
